@@ -68,6 +68,7 @@ inductive Ev
 /-- outcome of a request as observed on the implementation -/
 inductive Obs
   | answered (status : Nat) (ran : Bool) (retryAfter : Option Nat) (limitHdr : Option Int)
+      (remainingHdr : Option Int) (resetHdr : Option Nat)
   | noAnswer          -- panicked / never finished
   deriving Repr
 
@@ -94,10 +95,10 @@ def expectations (cfg : Cfg) (reqs : Tid → Req) : List Ev → State → List (
     | none => expectations cfg reqs evs s
 
 /-- first violated clause for one request -/
-def judge (r : Req) (bypass : Bool) (x : Option Expect) (o : Obs) : Option String :=
+def judge (r : Req) (bypass : Bool) (back : Bool) (x : Option Expect) (o : Obs) : Option String :=
   if bypass then
     match o with
-    | .answered _ true _ _ => none
+    | .answered _ true _ _ _ _ => none
     | _ => some "early-rejection (request that bypasses the limiter did not reach the handler)"
   else match x with
     | none =>
@@ -107,15 +108,18 @@ def judge (r : Req) (bypass : Bool) (x : Option Expect) (o : Obs) : Option Strin
     | some x =>
       if x.allow then
         match o with
-        | .answered st true _ lim =>
+        | .answered st true _ lim rem rst =>
           if st != r.status then some "early-rejection (handler result replaced)"
           else if lim != some x.limit then some "limit-is-maxfunc (X-RateLimit-Limit differs from MaxFunc's value)"
+          else if rst != some x.retry then some "reset-header (X-RateLimit-Reset differs from time until the window resets)"
+          else if rem != some (x.limit - x.load) && !(back && rem == some (x.limit - x.load + 1)) then
+            some "remaining-header (X-RateLimit-Remaining differs from limit minus load, plus one if the hit was taken back)"
           else none
         | _ => some "early-rejection (budget not exhausted, request did not reach the handler)"
       else
         match o with
-        | .answered _ true _ _ => some "over-admission (budget exhausted, request reached the handler)"
-        | .answered _ false ra _ =>
+        | .answered _ true _ _ _ _ => some "over-admission (budget exhausted, request reached the handler)"
+        | .answered _ false ra _ _ _ =>
           if ra != some x.retry then some "retry-after (differs from time until the window resets)" else none
         | .noAnswer => some "no-answer"
 
@@ -124,6 +128,8 @@ def check (cfg : Cfg) (reqs : Tid → Req) (n : Nat) (evs : List Ev) (obs : Tid 
   (List.range n).findSome? fun t =>
     let r := reqs t
     let bypass := r.next || r.max == 0
-    (judge r bypass ((xs.find? (·.1 == t)).map (·.2)) (obs t)).map fun c => s!"{c} thread={t}"
+    -- a skip option asked to take this request's hit back (whether it still found it or not)
+    let back := evs.any fun e => match e with | .unhit t' => t' == t | _ => false
+    (judge r bypass back ((xs.find? (·.1 == t)).map (·.2)) (obs t)).map fun c => s!"{c} thread={t}"
 
 end C13.Spec
